@@ -7,7 +7,5 @@ echo "== demo on changed tree"; (cd $wt && JAX_PLATFORMS=cpu PYTHONPATH=$wt time
 echo "== demo on /repo"; (cd /repo && JAX_PLATFORMS=cpu PYTHONPATH=/repo timeout 900 /venv/bin/python $m/demo.py 2>&1 | tail -2; echo "exit ${PIPESTATUS[0]}")
 for p in "$@"; do
   echo "== check $p against the changed tree"
-  cp evidence/$p.json /tmp/ev_$p.bak 2>/dev/null
-  VERIF_REPO=$wt ./check $p --no-build 2>&1 | grep -v "^WARNING" | tail -6
-  cp /tmp/ev_$p.bak evidence/$p.json 2>/dev/null   # evidence must come from runs against /repo only
+  VERIF_EVIDENCE_DIR=/tmp/ev_trial VERIF_REPO=$wt ./check $p --no-build 2>&1 | grep -v "^WARNING" | tail -6   # evidence/ must come from runs against /repo only
 done
